@@ -20,6 +20,7 @@ use crate::connection::SrtlaConnection;
 type ByteSource = Box<dyn FnMut(&mut [u8])>;
 
 thread_local! {
+    static CLOCK_FN: Cell<Option<fn() -> u64>> = const { Cell::new(None) };
     static CLOCK: Cell<Option<u64>> = const { Cell::new(None) };
     static BYTES: RefCell<Option<ByteSource>> = const { RefCell::new(None) };
 }
@@ -29,10 +30,19 @@ pub fn set_clock(now_ms: Option<u64>) {
     CLOCK.with(|c| c.set(now_ms));
 }
 
+/// Install (or with `None` remove) a virtual clock *function* for this thread,
+/// consulted when no fixed value is installed (used when the simulator lets a
+/// paused tokio clock drive the real event loop).
+pub fn set_clock_fn(f: Option<fn() -> u64>) {
+    CLOCK_FN.with(|c| c.set(f));
+}
+
 /// The installed virtual time, if any.
 #[inline]
 pub fn clock_override() -> Option<u64> {
-    CLOCK.with(|c| c.get())
+    CLOCK
+        .with(|c| c.get())
+        .or_else(|| CLOCK_FN.with(|c| c.get()).map(|f| f()))
 }
 
 /// Install (or with `None` remove) the seeded byte source for this thread.
